@@ -3,6 +3,7 @@ package main
 import (
 	"fmt"
 	"math/rand"
+	"strings"
 
 	"bngverif/hx"
 )
@@ -16,12 +17,16 @@ import (
 //     unlock window; every pair of RELEASE/DECLINE/cleanup AT ONCE (split); shutdown) x second termination
 //     (none, every path again; quick tier: a seeded third of the pairs), followed by closing observers: what a fresh client is told, and a second session of
 //     the same MAC (its own accounting session) ended by RELEASE.
+//     The same paths for clients with hardware addresses of 1, 5, 7 and 16 bytes (oddHlen), and REQUESTs with a
+//     termination inside their unlock window (raced).
 //  2. Random sequences over 3-4 MACs on the 5 usable addresses (conflicts, exhaustion, reuse of addresses that carry
 //     residue), short leases, every operation kind.
-//  3. Small-scope exhaustive: every sequence of depth 4 over a 17-letter alphabet on two MACs (thorough: all of them,
+//  3. Small-scope exhaustive: every sequence of depth 4 over a 19-letter alphabet on two MACs (thorough: all of them,
 //     quick: a seeded sample).
 func (comp) Gen(r *rand.Rand, tier string, emit func([]string)) {
 	crossProduct(r, tier, emit)
+	oddHlen(r, tier, emit)
+	raced(emit)
 	nRand, lenRand := 250, 30
 	if tier == "thorough" {
 		nRand, lenRand = 6000, 40
@@ -108,10 +113,69 @@ func crossProduct(r *rand.Rand, tier string, emit func([]string)) {
 	}
 }
 
-var prefAddr = map[int]string{1: "a2", 2: "a3", 3: "a4", 4: "a5"}
+// oddHlen: the same paths for clients whose chaddr is not 6 bytes long (hlen 1, 5, 7, 16): the lease table is keyed by
+// the text form of the address, which net.ParseMAC does not read back for these lengths
+func oddHlen(r *rand.Rand, tier string, emit func([]string)) {
+	ps := prefixes()
+	for _, v := range []struct{ mac, opt string }{{"m5", " h1"}, {"m5", " h5"}, {"m6", ""}, {"m7", ""}} {
+		for _, rad := range []string{"radius", "noradius"} {
+			for _, p := range []prefix{ps[1], ps[3], ps[4], ps[6], ps[9], ps[13]} {
+				ts := terminations(p.ip)
+				for _, t1 := range ts {
+					for _, t2 := range [][]string{nil, {"rel m1"}, {"tick 301", "cleanup"}, {"dec m1 " + p.ip}} {
+						if tier != "thorough" && t2 != nil && r.Intn(4) != 0 {
+							continue
+						}
+						seq := []string{"new " + rad + " 300" + v.opt}
+						for _, op := range append(append(append([]string{}, p.ops...), t1...), t2...) {
+							seq = append(seq, strings.ReplaceAll(op, "m1", v.mac))
+						}
+						seq = append(seq, "disc m2 -", "req "+v.mac+" a6 c3", "tick 301", "cleanup", "cleanup")
+						emit(seq)
+					}
+				}
+			}
+		}
+	}
+}
 
-func randTerm(r *rand.Rand, macs int, allowCleanup bool) string {
-	k := 1 + r.Intn(macs)
+// raced: a REQUEST (new session with / without DISCOVER, renewal under the same / another circuit-id, renewal of a
+// lease that has run out) with every termination inside its unlock window (handleRequest drops the lease lock
+// right after the lease insert), then nothing / RELEASE / expiry, then the closing observers
+func raced(emit func([]string)) {
+	type row struct {
+		pre []string
+		req string // "<addr> <cid>"
+	}
+	rows := []row{
+		{nil, "a2 -"}, {nil, "a3 c1"},
+		{[]string{"disc m1 -"}, "a2 -"}, {[]string{"disc m1 c1"}, "a2 c1"},
+		{[]string{"req m1 a2 -"}, "a2 -"}, {[]string{"req m1 a2 c1", "tick 100"}, "a2 c1"},
+		{[]string{"req m1 a2 c1", "tick 100"}, "a2 c2"}, {[]string{"req m1 a2 c1"}, "a2 -"},
+		{[]string{"req m1 a2 -", "tick 301"}, "a2 -"}, {[]string{"req m1 a2 c1", "req m2 a3 -", "tick 301"}, "a2 c2"},
+		{[]string{"req m1 a2 -"}, "a4 -"}, // NAK: the window is not reached
+	}
+	inners := []string{"rel m1", "dec m1 a2", "dec m1 a3", "dec m1 a5", "cleanup", "rel m2", "dec m2 a3"}
+	afters := [][]string{nil, {"rel m1"}, {"tick 301", "cleanup"}, {"dec m1 a2"}, {"req m1 a2 c3", "rel m1"}}
+	for _, rad := range []string{"radius", "noradius"} {
+		for _, rw := range rows {
+			for _, in := range inners {
+				for _, af := range afters {
+					seq := append([]string{"new " + rad + " 300"}, rw.pre...)
+					seq = append(seq, "estgap m1 "+rw.req+" / "+in)
+					seq = append(seq, af...)
+					seq = append(seq, "disc m2 -", "req m1 a6 c3", "rel m1", "rel m1")
+					emit(seq)
+				}
+			}
+		}
+	}
+}
+
+var prefAddr = map[int]string{1: "a2", 2: "a3", 3: "a4", 4: "a5", 5: "a3", 6: "a4", 7: "a5"}
+
+func randTerm(r *rand.Rand, macs []int, allowCleanup bool) string {
+	k := hx.Pick(r, macs)
 	switch x := r.Intn(10); {
 	case x < 5:
 		return fmt.Sprintf("rel m%d", k)
@@ -126,8 +190,8 @@ func randTerm(r *rand.Rand, macs int, allowCleanup bool) string {
 	}
 }
 
-func randomOp(r *rand.Rand, macs int) string {
-	k := 1 + r.Intn(macs)
+func randomOp(r *rand.Rand, macs []int) string {
+	k := hx.Pick(r, macs)
 	cid := "-"
 	if r.Intn(3) == 0 {
 		cid = fmt.Sprintf("c%d", 1+r.Intn(maxCids))
@@ -151,7 +215,7 @@ func randomOp(r *rand.Rand, macs int) string {
 		return "cleanup"
 	case x < 92:
 		return "gap " + randTerm(r, macs, true)
-	case x < 98:
+	case x < 97:
 		// two terminations at once, mostly aimed at the same MAC (anything else is refused when it would deadlock)
 		first := randTerm(r, macs, false)
 		second := randTerm(r, macs, true)
@@ -161,15 +225,23 @@ func randomOp(r *rand.Rand, macs int) string {
 			second = hx.Pick(r, []string{fmt.Sprintf("rel m%d", m), fmt.Sprintf("dec m%d %s", m, prefAddr[m]), "cleanup"})
 		}
 		return "split " + first + " / " + second
-	default:
+	case x < 99:
 		return "shutdown"
+	default:
+		a := prefAddr[k]
+		return fmt.Sprintf("estgap m%d %s %s / %s", k, a, cid, randTerm(r, macs, true))
 	}
 }
 
 func randomSeq(r *rand.Rand, n int) []string {
-	macs := 3 + r.Intn(2)
+	macs := []int{1, 2, 3, 4}[:3+r.Intn(2)]
+	opt := ""
+	if r.Intn(3) == 0 { // clients with hardware addresses of 1/5, 7 and 16 bytes
+		macs = []int{1, 5, 6, 7}
+		opt = hx.Pick(r, []string{" h1", " h5", ""})
+	}
 	lease := hx.Pick(r, []int{60, 60, 300})
-	seq := []string{fmt.Sprintf("new %s %d", hx.Pick(r, []string{"radius", "radius", "noradius"}), lease)}
+	seq := []string{fmt.Sprintf("new %s %d%s", hx.Pick(r, []string{"radius", "radius", "noradius"}), lease, opt)}
 	for i := 0; i < n; i++ {
 		seq = append(seq, randomOp(r, macs))
 	}
@@ -181,7 +253,7 @@ func exhaustive(r *rand.Rand, tier string, emit func([]string)) {
 		"disc m1 -", "req m1 a2 -", "req m1 a2 c1", "req m1 a2 c2", "rel m1", "dec m1 a2",
 		"req m2 a2 -", "req m2 a3 c1", "rel m2", "dec m2 a3",
 		"tick 301", "cleanup", "gap rel m1", "gap dec m1 a2", "split rel m1 / dec m1 a2", "split dec m1 a2 / cleanup",
-		"split rel m2 / rel m1",
+		"split rel m2 / rel m1", "estgap m1 a2 c1 / rel m1", "estgap m1 a2 - / dec m1 a2",
 	}
 	keep := 60
 	var rec func(prefix []string, depth int)
